@@ -43,6 +43,8 @@ type flowParams struct {
 	Procs        []procParam         `json:"procs"`
 	PointOnly    []string            `json:"point_only"`     // preemptive part: sweep only points of these files
 	LateOpen     []string            `json:"late_open"`      // destinations whose Open gate sorts last (stays pending by default)
+	LateCommit   bool                `json:"late_commit"`    // store commits stay in flight until nothing else can run (exploration order)
+	LateAckRecv  bool                `json:"late_ack_recv"`  // source plugins are slow to receive acks (exploration order)
 	GateDestOpen bool                `json:"gate_dest_open"` // destination Open calls are pending events with answers {ok, err}
 	NoMatch      []int               `json:"no_match"`       // records that do not match the processors' condition (Cond: "match")
 	GateDLQOpen  bool                `json:"gate_dlq_open"`  // the DLQ connector's Open is a pending event (an unresponsive DLQ during start-up)
@@ -85,6 +87,12 @@ func (p flowParams) name() string {
 	}
 	if len(p.PointOnly) > 0 {
 		n += "/points=" + strings.Join(p.PointOnly, ",")
+	}
+	if p.LateCommit {
+		n += "/latecommit"
+	}
+	if p.LateAckRecv {
+		n += "/lateackrecv"
 	}
 	if len(p.LateOpen) > 0 {
 		n += "/lateopen=" + strings.Join(p.LateOpen, ",")
@@ -136,7 +144,7 @@ func (p flowParams) topology() stack.Topology {
 			}
 			batches = append(batches, b)
 		}
-		ss := fakes.SourceScript{Name: fmt.Sprintf("s%d", s), Batches: batches, ReadMenu: p.ReadMenu, NoMatch: p.NoMatch}
+		ss := fakes.SourceScript{Name: fmt.Sprintf("s%d", s), Batches: batches, ReadMenu: p.ReadMenu, NoMatch: p.NoMatch, LateAckRecv: p.LateAckRecv}
 		switch p.SrcPositions {
 		case "dup":
 			ss.PositionOf = func(i int) opencdc.Position {
@@ -218,7 +226,7 @@ func flowScenario(p flowParams) verifkit.Scenario {
 				}})
 			}
 			procs.Add(fakes.ProcScript{Name: "pnew", OpenMenu: p.ProcOpenMenu})
-			st, err := stack.New(x.W, plugins, nil, stack.Options{Engine: engineOf(p.Engine), ProcPlugins: procs, PersisterBundle: p.Bundle, FaultCommits: p.Faults, FaultSets: p.Faults, Recovery: rec})
+			st, err := stack.New(x.W, plugins, nil, stack.Options{Engine: engineOf(p.Engine), ProcPlugins: procs, PersisterBundle: p.Bundle, LateCommits: p.LateCommit, FaultCommits: p.Faults, FaultSets: p.Faults, Recovery: rec})
 			if err != nil {
 				panic(err)
 			}
